@@ -105,6 +105,13 @@ func VerifRDBMC() {
 			}
 		}
 		if ok && vBool("acc", i) {
+			if wrap && !constrained {
+				// the property leaves the numbers nearest the half-space boundary open: whether
+				// such a number becomes the newest is not determined, so the history is judged
+				// only up to here
+				accept()
+				return
+			}
 			latest := accept()
 			vObserveBool("latest", latest)
 			if inC05 && constrained {
